@@ -11,6 +11,7 @@ import (
 
 	"verif/harness/evid"
 	"verif/harness/gen"
+	"verif/harness/ir"
 	"verif/harness/layout"
 	"verif/harness/shape"
 )
@@ -222,6 +223,29 @@ func c12Gen(t *rapid.T, rec *evid.Recorder) c12Case {
 	g := &gen.Syn{R: r, MaxDepth: 1 + r.Intn(3, "depth"), StmtDepth: r.Intn(3, "sdepth"), RichStr: true, Tpl: true, MultiTpl: true}
 	tree := g.Program(4)
 	opt := layout.Options{Random: true, ASI: r.Bool("asi"), Comments: r.Bool("comments")}
+	if r.Intn(4, "head") == 0 {
+		// a program whose first byte opens something: a directive-like string
+		// statement, a backtick string, a block, an array, a group - so that the
+		// corruptions reach the very first token (position 0:0)
+		var head *ir.Node
+		switch r.Intn(6, "headkind") {
+		case 0:
+			head = ir.N(ir.ExprStmt, "", gen.StrOf("use strict", []string{"\"", "'"}[r.Intn(2, "hq")]))
+		case 1:
+			head = ir.N(ir.ExprStmt, "", ir.N(ir.Tpl, "head text"))
+		case 2:
+			head = ir.N(ir.Block, "", ir.N(ir.ExprStmt, "", ir.N(ir.Ident, "h")))
+		case 3:
+			head = ir.N(ir.ExprStmt, "", ir.N(ir.Array, "", ir.N(ir.Ident, "h"), ir.N(ir.Num, "1")))
+		case 4:
+			head = &ir.Node{K: ir.Block, Kids: []*ir.Node{}}
+		default:
+			head = ir.N(ir.ExprStmt, "", ir.N(ir.Call, "", ir.N(ir.Ident, "h"), r.RichStr(3)))
+		}
+		tree.Kids = append([]*ir.Node{head}, tree.Kids...)
+		opt.GapOverride = func(ch layout.Chooser, prev, next *layout.Tok) (string, bool) { return "", prev == nil }
+		rec.Class("program:first-byte-opens-a-construct")
+	}
 	src, toks := layout.Source(r, tree, opt)
 	c := c12Case{Src: src}
 	for _, tk := range toks {
